@@ -245,6 +245,75 @@ def run_fstring_strict(x: int, on: int) -> Tuple[bool, bool]:
 ALL = ["eid", "x", "y", "b", "xs", "on", "oflag"]
 
 
+_PRIVATE_SRC = '''"""generated by harness.C06 - regenerated on every run"""
+import icontract
+from vfw.exprsupport import REC
+
+
+class Base(icontract.DBC):
+    def __init__(self, a):
+        self.__x = a
+
+    @icontract.require(lambda self: self.__x > 100, a_repr=REC)
+    def m(self):
+        return None
+
+
+class Derived(Base):
+    def __init__(self, a, b):
+        super().__init__(a)
+        self.__x = b
+
+    @icontract.ensure(lambda self: self.__x > 100, a_repr=REC)
+    def n(self):
+        return None
+'''
+_PRIVATE_MOD = []  # type: List[Any]
+
+
+def run_private(a: int, b: int, which: int) -> Tuple[bool, bool]:
+    """Base and Derived both define the private attribute __x; a condition written in Base reads _Base__x, one written in
+    Derived reads _Derived__x - also on a Derived instance.  The message shows the value Python read."""
+    which = conc(which, 0, 1)
+    with untraced():
+        if not _PRIVATE_MOD:
+            import importlib.util
+            verif = os.path.dirname(os.path.dirname(os.path.abspath(__file__)))
+            base = os.path.join(verif, ".work")
+            os.makedirs(base, exist_ok=True)
+            d = tempfile.mkdtemp(prefix="gen_", dir=base)
+            atexit.register(shutil.rmtree, d, True)
+            path = os.path.join(d, "gen_c06_private.py")
+            with open(path, "w") as f:
+                f.write(_PRIVATE_SRC)
+            spec = importlib.util.spec_from_file_location("gen_c06_private", path)
+            assert spec is not None and spec.loader is not None
+            mod = importlib.util.module_from_spec(spec)
+            sys.modules["gen_c06_private"] = mod
+            spec.loader.exec_module(mod)
+            _PRIVATE_MOD.append(mod)
+        mod = _PRIVATE_MOD[0]
+    inst = mod.Derived(a, b)
+    read = a if which == 0 else b
+    del REC.seen[:]
+    try:
+        fresh(inst.m if which == 0 else inst.n)
+        outcome = None  # type: Any
+    except icontract.ViolationError as err:
+        outcome = err
+    if read > 100:
+        return outcome is None, False
+    if outcome is None:
+        return False, True
+    ok = False
+    for line in str(outcome).split("\n"):
+        if line.startswith("self.__x was <") and line.endswith(">"):
+            tok = int(line[len("self.__x was <"):-1])
+            ok = tok < len(REC.seen) and REC.seen[tok] is read
+    note(("private", which), True)
+    return ok, True
+
+
 def harnesses(tier: str) -> List[H]:
     mod = generated(tier)
     n = len(mod.EXPRS)
@@ -273,4 +342,9 @@ def harnesses(tier: str) -> List[H]:
                  tiers=(tier,), timeout=120, witness_only=True,
                  family="witness of the known finding KF-C06-1 only (attributes and calls evaluated inside an f-string are not "
                         "listed); not part of the claim", family_size=1))
+    PV = ["a", "b", "which"]
+    out.append(H("private_attribute_two_classes", bind(run_private, (), PV, {}, PV),
+                 [I("a", 90, 110), I("b", 90, 110), I("which", 0, 1)], tiers=(tier,), timeout=200,
+                 family="Base and Derived both define self.__x; a precondition written in Base and a postcondition written in "
+                        "Derived read it on a Derived instance", family_size=2))
     return out
